@@ -159,7 +159,7 @@ def prepare(case):
         how = pre.get("how", "list")
         if how == "list":
             tk.tokenize(s0)
-        else:
+        elif how[0] == "gen":
             g = tk.tokenize(s0, generator=True)
             for _ in range(how[1]):
                 try:
@@ -167,12 +167,51 @@ def prepare(case):
                 except StopIteration:
                     break
             tk._vf_keepalive = g  # abandoned, not closed
+        elif how[0] in ("two_gens", "close_mid"):
+            tk._vf_pre_source = s0  # handled by run_case
+        else:
+            raise HarnessError(how)
     return frames, source, tk
 
 
 def run_case(case):
-    """-> (frames, tokens) for a tokenizer case dict."""
+    """-> (frames, tokens) for a tokenizer case dict.
+
+    pre.how variants that interleave two generator objects of one tokenizer
+    (the main run is then in generator mode):
+      ["two_gens"]        both generators are requested first, the earlier stream's is consumed
+                          completely, then the main one: the main run starts after a complete run
+      ["close_mid", k, j] the earlier generator is advanced k items and abandoned, the main one
+                          yields j tokens, the abandoned one is closed (as the garbage collector
+                          would), the main one continues
+    """
     frames, source, tk = prepare(case)
+    pre = case.get("pre")
+    how = pre.get("how") if pre else None
+    if how and how[0] == "two_gens":
+        g1 = tk.tokenize(tk._vf_pre_source, generator=True)
+        g2 = tk.tokenize(source, generator=True)
+        for _t in g1:
+            pass
+        return frames, list(g2)
+    if how and how[0] == "close_mid":
+        g1 = tk.tokenize(tk._vf_pre_source, generator=True)
+        for _ in range(how[1]):
+            try:
+                next(g1)
+            except StopIteration:
+                break
+        g2 = tk.tokenize(source, generator=True)
+        toks = []
+        for _ in range(how[2]):
+            try:
+                toks.append(next(g2))
+            except StopIteration:
+                return frames, toks
+        g1.close()
+        del g1
+        toks.extend(g2)
+        return frames, toks
     toks = deliver(tk, source, case.get("deliv", "list"))
     return frames, toks
 
